@@ -1,45 +1,28 @@
 import RP.Driver.Common
-import RP.Model.Equity
-import RP.Model.Eval
-import RP.Model.Hands
+import RP.Model.EquityInst
 /-! line-protocol driver for C07:
  `equity <std|short> <pocket> <public>` → `<f32 bits of the equity> <river bucket index>`
  `hist <std|short> <pocket> <public>`   → the 46-child (30 in short deck) bucket histogram `i:c,i:c,…` -/
-open RP.Driver
+open RP.Driver RP.Equity
 
 def cfgOf (deck : String) : Option (RP.Eval.Cfg × Bool) :=
   if deck == "std" then some (RP.Eval.Cfg.std, false)
   else if deck == "short" then some (RP.Eval.Cfg.short, true) else none
-
-def nBuckets : Nat := RP.Gen.KMEANS_EQTY_CLUSTER_COUNT - 1
-
-/-- (wins, total) of a river observation: villain holdings from the hand-iterator model,
-    strengths from the evaluator model -/
-def riverCounts (cfg : RP.Eval.Cfg) (short : Bool) (pocket board : Nat) : Nat × Nat :=
-  let seen := pocket ||| board
-  let hero := RP.Eval.strengthKey cfg seen
-  let villains := (RP.Hands.hands short 2 seen).map (fun v => RP.Eval.strengthKey cfg (board ||| v))
-  RP.Equity.counts hero villains
-
-def riverBucket (cfg : RP.Eval.Cfg) (short : Bool) (pocket board : Nat) : Nat :=
-  RP.Equity.quantize nBuckets (RP.Equity.equityF32 (riverCounts cfg short pocket board))
 
 def handle (line : String) : String :=
   match words line with
   | ["equity", deck, p, b] =>
     match cfgOf deck with
     | some (cfg, short) =>
-      let c := riverCounts cfg short (natOf p) (natOf b)
-      let e := RP.Equity.equityF32 c
-      s!"{e.toBits.toNat} {RP.Equity.quantize nBuckets e}"
+      let e := riverEquity cfg short (natOf p) (natOf b)
+      -- `quantize nBuckets e` is `riverBucket cfg short p b` by definition (computed once here)
+      s!"{e.toBits.toNat} {quantize nBuckets e}"
     | none => "bad-op"
   | ["hist", deck, p, b] =>
     match cfgOf deck with
     | some (cfg, short) =>
-      match RP.Hands.children short (natOf p) (natOf b) with
-      | some kids =>
-        let bs := kids.map (fun o => riverBucket cfg short o.1 o.2)
-        ",".intercalate ((RP.Equity.histogram nBuckets bs).map (fun p => s!"{p.1}:{p.2}"))
+      match turnHistogram cfg short (natOf p) (natOf b) with
+      | some hist => ",".intercalate (hist.map (fun p => s!"{p.1}:{p.2}"))
       | none => "panic"
     | none => "bad-op"
   | _ => "bad-op"
